@@ -123,12 +123,24 @@ STATE_RE = re.compile(r'[td](\d+)\.(\d+)\.(\d+)\.(\d+)\.(\d+)')
 
 class P(Property):
     id = 'C20'
-    gen_modules = ['gen_static', 'gen_qpack']
+    gen_modules = ['gen_static', 'gen_qpack', 'gen_prefixint', 'gen_huffman', 'gen_huffman_enc']
     properties_v = 'Properties/C20.v'
-    model_targets = ['Model/QSystem.vo', 'Spec/RFC9204.vo']
+    model_targets = ['Model/QSystem.vo', 'Model/QWire.vo', 'Spec/RFC9204.vo']
     extract_v = 'Extract/ExtractC20.v'
     driver_ml = 'C20_driver.ml'
     harness_bin = 'c20'
+    partial_note = ('C20_agreement is proved for every history of encodes, deliveries, honest or bare decodes and feedback deliveries with a '
+                    'fixed capacity and fewer than 2^62 insertions; with Stream Cancellation or set_dynamic_table_size in the history the '
+                    'statement is refuted by the model and the real code (C20_cancel_blocked_refuted, C20_capacity_with_resize_refuted); '
+                    'instructions and representations are structured values in the theorems - their byte codecs are compared on the wire '
+                    'in the correspondence run (model bytes from the C15 prefix-int/string models) but no parser theorem is pinned here')
+    trusted_extra = ['verification hooks in /repo: qpack/verif/tables.rs (wrappers) and cfg(h3_verif) From<DynamicTable>/verif_table/'
+                     'verif_snapshot items in encoder.rs, decoder.rs, dynamic.rs',
+                     'HashMap/BTreeMap modelled as association lists; block_refs iteration order only matters on the (proved unreachable) '
+                     'InvalidTrackingCount path',
+                     'usize = 64 bit; overflow of insert counters (2^62 insertions) excluded by premise',
+                     'static table rows are the generated ones (agreement with RFC 9204 App. A is C11)',
+                     'prefix-int / Huffman string models of C15 (Model/PrefixInt.v, PrefixString.v, Huffman.v) for the wire comparison only']
     rule = ('qs: seeded histories of 1..40 field sections over alphabets of 1..4 names x 1..4 values (static-table names and '
             'full static matches included), capacities {0,1,31,32,33,...,4096} and random 0..4096, blocked limits {0,1,2,3,5,10,100} '
             'and random 0..100, 1..3 shared streams or one stream per section; schedules: immediate delivery, late delivery of '
@@ -189,6 +201,8 @@ class P(Property):
 
     def spec_ok(self, case, out, spec):
         fam = case.split()[0]
+        if fam == 'hp.get' and spec and spec.startswith('rfc-required') and out.startswith('ok'):
+            return out.split()[1] == spec.split()[1]     # where the RFC reconstructs a value, h3 must reconstruct the same
         if fam in ('hp.new', 'hp.get'):
             return True
         if fam == 'qx':
